@@ -235,6 +235,9 @@ type flowTracker struct {
 	activityCh chan struct{}
 	lock       sync.RWMutex
 	element    *schema.InclusiveGateway
+	// unsub ends the subscription `traces`: a subscription that is no longer read
+	// would block the tracer once its buffer is full
+	unsub func()
 }
 
 func (tracker *flowTracker) activity() <-chan struct{} {
@@ -242,12 +245,14 @@ func (tracker *flowTracker) activity() <-chan struct{} {
 }
 
 func newFlowTracker(tracer tracing.ITracer, element *schema.InclusiveGateway) *flowTracker {
+	subscription := tracer.Subscribe()
 	tracker := flowTracker{
-		traces:     tracer.Subscribe(),
+		traces:     subscription,
 		shutdownCh: make(chan bool),
 		flows:      make(map[id.Id]schema.Id),
 		activityCh: make(chan struct{}, 1),
 		element:    element,
+		unsub:      func() { tracer.Unsubscribe(subscription) },
 	}
 	// Lock the tracker until it has caught up enough
 	// to see the incoming flow for the node
@@ -286,6 +291,7 @@ func (tracker *flowTracker) run() {
 			if locked {
 				tracker.lock.Unlock()
 			}
+			tracker.unsub()
 			return
 		default:
 			// Nothing else is coming in, unlock if locked
@@ -316,6 +322,7 @@ func (tracker *flowTracker) run() {
 			if locked {
 				tracker.lock.Unlock()
 			}
+			tracker.unsub()
 			return
 		}
 
